@@ -42,7 +42,8 @@ def failures(case):
 
 
 def judge(ctx, stream, traces, max_shrink=2):
-    """Returns True if any failing input (recorded or not) was found."""
+    """Returns True if an *unrecorded* failing input was found (recorded findings are printed as
+    KNOWN-FINDING and do not count: a broken proof obligation must still be reported)."""
     found = False
     shrunk = 0
     seen_unknown = set()
@@ -62,11 +63,11 @@ def judge(ctx, stream, traces, max_shrink=2):
                                 "ops": [f"{vlib.strip_obs(t)}  ## {v[:160]}" for t, v in cases[0]["ops"][:16]]})
         for c in cases:
             for idx, v in failures(c):
-                found = True
                 sig = signature(c, idx, v)
                 if vlib.match_known(ctx.pid, sig):
                     vlib.report_violation(ctx, "known", {}, signature=sig)   # prints KNOWN-FINDING once
                     continue
+                found = True
                 if sig in seen_unknown:
                     continue
                 seen_unknown.add(sig)
